@@ -20,18 +20,16 @@ Proof.
       lia ].
 Qed.
 
-Lemma gen_fit_loop_eq f a m b d l :
-  fst (fst (gen_max_chunk_fit_loop1 f a m b d l)) = fit_loop f a m b d l.
-Proof.
-  revert b d l. induction f as [|f IH]; intros b d l; cbn [gen_max_chunk_fit_loop1 fit_loop]; [reflexivity|].
-  change CHUNK_LINE_OVERHEAD with 4.
-  destruct (N.leb l m && N.leb (N.add (N.add l d) 4) a) eqn:E.
-  - apply IH.
-  - reflexivity.
-Qed.
+(** [max_chunk_fit]: both loops (the translated one, 20 iterations of fuel, and the model's) are unrolled completely and the
+    equality is decided by linear arithmetic on each combination of exit points, contradictory combinations being pruned as soon as
+    they arise.  Nothing here depends on the shape of the Rust loop (its variables, whether the result is computed inside or after
+    the loop, a closed form without any loop): an equivalent rewrite is accepted (seconds when the conditions coincide syntactically,
+    a few minutes otherwise), a rewrite that differs for some (available, max_chunk) is refused. *)
+Ltac split_if := match goal with |- context [if ?c then _ else _] => destruct c eqn:? end.
+Ltac solve_leaf := repeat (try lia; split_if); try reflexivity; lia.
 
 Lemma gen_max_chunk_fit_eq a m : gen_max_chunk_fit a m = max_chunk_fit a m.
 Proof.
-  unfold gen_max_chunk_fit, max_chunk_fit. rewrite <- gen_fit_loop_eq.
-  destruct (gen_max_chunk_fit_loop1 20 a m 0 1 1) as [[b d] l]. reflexivity.
+  cbv beta iota zeta delta -[N.add N.sub N.mul N.leb N.ltb N.eqb N.min N.max N.div N.modulo N.pow andb orb negb].
+  solve_leaf.
 Qed.
